@@ -128,8 +128,13 @@ const (
 	ctxHoleBack
 	ctxHoleRS
 	ctxSecond
+	ctxRest       // the literal followed by text the parser gives back (a host's "reason" text)
+	ctxAssignRest // assignment of the literal followed by such text
 	nCtx
 )
+
+// restTail is appended in the ctxRest contexts: it cannot continue an expression.
+const restTail = " 攻击 )"
 
 // build returns the program, the expected result and the literal's source.
 func (c LitCase) build() (src, want, lit string, err error) {
@@ -170,6 +175,10 @@ func (c LitCase) build() (src, want, lit string, err error) {
 		src = "\x1e{% " + lit + " %}\x1e"
 	case ctxSecond:
 		src = "7; " + lit
+	case ctxRest:
+		src = lit + restTail
+	case ctxAssignRest:
+		src = "s1 = " + lit + restTail
 	default:
 		return "", "", "", errInvalid
 	}
@@ -192,7 +201,14 @@ func checkLit(c LitCase, s *rt.Section) *rt.Failure {
 	if o.err != nil {
 		return s.NewFailure("literal", "lit:error/"+style, c, fmt.Sprintf("program %q (literal %q): error %v", src, lit, o.err), fmt.Sprintf("%q", want))
 	}
-	if strings.TrimSpace(o.rest) != "" {
+	if c.Ctx == ctxRest || c.Ctx == ctxAssignRest {
+		// the given-back text is exactly the tail, and the consumed text is the program as written
+		wantMatched := strings.TrimSuffix(src, restTail)
+		if o.vm.Matched != wantMatched || o.rest != restTail {
+			return s.NewFailure("literal", "lit:matched/"+style, c, fmt.Sprintf("program %q: Matched=%q RestInput=%q", src, o.vm.Matched, o.rest),
+				fmt.Sprintf("Matched=%q RestInput=%q", wantMatched, restTail))
+		}
+	} else if strings.TrimSpace(o.rest) != "" {
 		return s.NewFailure("literal", "lit:rest/"+style, c, fmt.Sprintf("program %q: unparsed rest %q", src, o.rest), "the whole literal is consumed")
 	}
 	got, ok := o.ret.ReadString()
@@ -202,7 +218,7 @@ func checkLit(c LitCase, s *rt.Section) *rt.Failure {
 	if got != want {
 		return s.NewFailure("literal", "lit:mismatch/"+style, c, fmt.Sprintf("program %q gives %q", src, got), fmt.Sprintf("%q", want))
 	}
-	if c.Ctx == ctxAssign {
+	if c.Ctx == ctxAssign || c.Ctx == ctxAssignRest {
 		vars, _ := vmVars(o.vm)
 		if d := compareVars(map[string]Val{"s1": {K: 's', S: want}}, vars); d != "" {
 			return s.NewFailure("literal", "lit:var/"+style, c, fmt.Sprintf("program %q: %s", src, d), "s1 holds the text")
@@ -672,7 +688,7 @@ func TestProp(t *testing.T) {
 	thorough := run.Env.Thorough()
 
 	run.Check("literal", 100000, 800000,
-		"a text of 0..60 characters over an alphabet weighted towards quotes, backslash, braces, %, CR/LF/FF/TAB, 0x1E, escape letters, multi-byte and 4-byte runes, control and format characters (one in ten characters is any Unicode rune), written in one of the four quote styles with a drawn spelling per character (raw / documented escape / raw backslash before a non-escape character), placed in one of 7 contexts (alone, surrounded by blanks, assigned and read back, concatenated with a second literal, inside a hole of a backtick / 0x1E template, after another statement); characters that a style cannot spell (backtick in `…`, 0x1E in 0x1E…0x1E) are replaced and counted; non-trivial = the text needs an escape in that style or an escape spelling was used; distinct by program text",
+		"a text of 0..60 characters over an alphabet weighted towards quotes, backslash, braces, %, CR/LF/FF/TAB, 0x1E, escape letters, multi-byte and 4-byte runes, control and format characters (one in ten characters is any Unicode rune), written in one of the four quote styles with a drawn spelling per character (raw / documented escape / raw backslash before a non-escape character), placed in one of 9 contexts (alone, surrounded by blanks, assigned and read back, concatenated with a second literal, inside a hole of a backtick / 0x1E template, after another statement, followed by text the parser gives back, assigned and followed by such text); characters that a style cannot spell (backtick in `…`, 0x1E in 0x1E…0x1E) are replaced and counted; non-trivial = the text needs an escape in that style or an escape spelling was used; distinct by program text",
 		func(t *rapid.T, s *rt.Section) {
 			maxLen := 60
 			if rapid.Bool().Draw(t, "short") {
